@@ -15,14 +15,14 @@ import threevl as T
 LEVEL = "exploration"
 MANIFEST = dict(cat=LEVEL, ref="DESIGN.md 3.10, 6 (C14)",
     tech="TLA+ oracle ThreeVL.tla (Eval(e,row) in {T,F,N} for = <> < <= > >= AND OR NOT [NOT] IN, [NOT] BETWEEN, [NOT] LIKE, IS [NOT] NULL over int/float/text/NULL) evaluated by TLC on a fixed 100-row table with every combination of the column domains; MC_ThreeVL enumerates every atom, depth-2 trees and seeded deep walks and checks the oracle's own laws as invariants; each tree is rendered to SQL and run on TurDB in three contexts (WHERE, select list, WHERE on an indexed copy); blame localisation with TLC's per-node values and TLC's truth tables",
-    text="for every generated boolean expression (quick: ~230 atoms, ~2 000 depth-2 trees, ~300 deeper trees; thorough: all ~100 000 depth-2 trees and ~6 000 deeper trees to depth 8) the set of rows returned by WHERE e, the per-row TRUE/FALSE/NULL of e in the select list and the rows returned through an index on i equal the values computed by TLC from ThreeVL on all 100 input combinations (NULL, negative, zero, int/float mixes, empty and multi-character text)",
+    text="for every generated boolean expression (quick: ~230 atoms, ~2 000 depth-2 trees, ~300 deeper trees; thorough: all ~119 000 depth-2 trees and ~2 500 deeper trees to depth 8) the set of rows returned by WHERE e, the per-row TRUE/FALSE/NULL of e in the select list and the rows returned through an index on i equal the values computed by TLC from ThreeVL on all 100 input combinations (NULL, negative, zero, int/float mixes, empty and multi-character text)",
     note="trusts the renderer (fully parenthesised SQL) and the mapping bool/0/1/NULL -> T/F/N; one fixed table; no arithmetic inside comparisons (C20), no subqueries (C18), no text-vs-number comparisons, binary collation, LIKE without ESCAPE; NOT is always rendered as NOT (..)")
 
 
 def tier_params(chk):
     if chk.tier == "thorough":
-        return dict(bfs=dict(Partners=0, CheckLaws="none"), laws=dict(Partners=8, CheckLaws="all"),
-                    walk=dict(Walks=1000, WalkLen=8, CheckLaws="none"), walk_laws=dict(Walks=40, WalkLen=7, CheckLaws="all"))
+        return dict(bfs=dict(Partners=0, CheckLaws="none"), laws=dict(Partners=2, CheckLaws="all"),
+                    walk=dict(Walks=400, WalkLen=8, CheckLaws="none"), walk_laws=dict(Walks=25, WalkLen=6, CheckLaws="all"))
     return dict(bfs=dict(Partners=3, CheckLaws="some"), laws=None,
                 walk=dict(Walks=60, WalkLen=6, CheckLaws="none"), walk_laws=None)
 
@@ -105,16 +105,61 @@ def judge(chk, gen, ob, cases, contexts):
     bl = T.Blamer(gen, ob, lambda t: gen.expected[T.key(t)], row_of)
     ob.ensure(x for ctx, c in failing for x in bl.need(ctx, c["e"]))
     per_sig = collections.Counter()
+    where_blame = {}
+    failing.sort(key=lambda x: x[0] != "where")          # the plain WHERE context first
     for ctx, c in failing:
         sigs = bl.blame(ctx, c["e"])
         if not sigs:
             raise vlib.ToolError("a failing case produced no blame: %s" % T.key(c["e"]))
+        if ctx == "where":
+            where_blame[T.key(c["e"])] = set(sigs)
+        elif ctx == "where/indexed":
+            # this context is about the index path answering differently from the scan: what the scan gets wrong in
+            # the same way is already judged in context "where"
+            same = {"where/indexed" + s[len("where"):] for s in where_blame.get(T.key(c["e"]), ())}
+            specific = collections.OrderedDict((s, d) for s, d in sigs.items() if s not in same)
+            sigs = specific or sigs
         rep = T.explain(gen, ob, ctx, c["e"], c["v"])
         for sig, d in sigs.items():
             per_sig[sig] += 1
             chk.classify(sig, dict(rep, blamed_node=d.get("node"), blamed_rows=d.get("rows"), all_signatures=list(sigs)))
     stats["failing_cases"] = len(failing)
     return stats, per_sig
+
+
+def judge_parentheses(chk, gen, ob, cases, stats, per_sig):
+    """The same trees written with only the parentheses standard SQL precedence requires (OR < AND < NOT < comparison /
+    IN / BETWEEN / LIKE / IS NULL) must be answered like the fully parenthesised text. When they are not, every site
+    at which a pair of parentheses was dropped is tested alone (parentheses dropped there only): blamed are the
+    sites that change the answer on their own; signature = operator at the site and the class of its operand."""
+    ctx = "where/minimal-parens"
+    todo = [c for c in cases if T.paren_sites(c["e"])]
+    ob.ensure((ctx, c["e"]) for c in todo)
+    canon = lambda o: o["err"] if isinstance(o, dict) else o
+    bad = [c for c in todo if canon(ob.get(ctx, c["e"])) != canon(ob.get("where", c["e"]))]
+    stats["evaluations"] += len(todo)
+    stats["minimal_parentheses_differ"] = len(bad)
+    jobs = [(c, n, j) for c in bad for n, j in T.paren_sites(c["e"])]
+    queries = [ob.ctx["where"] % T.render_min(c["e"], only={(T.key(n), j)}) for c, n, j in jobs]
+    res = oracle.run_sql(ob.setup, queries, batch=200) if queries else []
+    ob.queries += len(queries)
+    culprits = collections.defaultdict(list)
+    for (c, n, j), q, r in zip(jobs, queries, res):
+        if canon(ob.decode("where", r)) != canon(ob.get("where", c["e"])):
+            culprits[T.key(c["e"])].append((n, j, q))
+    for c in bad:
+        cl = lambda k: k[0] if k[0] in ("and", "or", "not") else "predicate"
+        found = culprits.get(T.key(c["e"]), [])
+        sigs = collections.OrderedDict()
+        for n, j, q in found:
+            sigs.setdefault("%s:%s:[%s]:answer_differs_from_fully_parenthesised" % (ctx, T.family(n), cl(n[j])), q)
+        if not found:
+            sigs["%s:only_several_dropped_parentheses_together_change_the_answer" % ctx] = ob.sql(ctx, c["e"])
+        for sig, q in sigs.items():
+            per_sig[sig] += 1
+            chk.classify(sig, {"context": ctx, "tree": c["e"], "expected": c["v"], "sql": ob.sql(ctx, c["e"]),
+                               "sql_fully_parenthesised": ob.sql("where", c["e"]), "sql_one_pair_dropped": q,
+                               "observed_minimal": canon(ob.get(ctx, c["e"])), "observed_full": canon(ob.get("where", c["e"]))})
 
 
 def run(chk):
@@ -128,9 +173,12 @@ def run(chk):
         chk.notes.append("SELFTEST: %d BETWEEN expectations deliberately falsified" % selftest_perturb(gen))
     setup = T.setup_sql(gen)
     T.check_tables(gen, setup)
-    ob = T.Observer(setup, len(gen.table))
+    contexts = dict(T.Observer.CONTEXTS)
+    contexts["where/minimal-parens"] = contexts["where"]
+    ob = T.Observer(setup, len(gen.table), contexts=contexts, renderers={"where/minimal-parens": T.render_min})
     cases = list(gen.cases.values())
-    stats, per_sig = judge(chk, gen, ob, cases, ["where", "select", "where/indexed"]); chk.mark("replay")
+    stats, per_sig = judge(chk, gen, ob, cases, ["where", "select", "where/indexed"])
+    judge_parentheses(chk, gen, ob, cases, stats, per_sig); chk.mark("replay")
     rng = random.Random(chk.seed)
     nontrivial = sum(1 for c in cases if len(set(c["v"])) >= 2)
     samples = []
@@ -144,6 +192,7 @@ def run(chk):
                "queries_run": ob.queries, "classes": classes, "tlc_runs": gen.stats,
                "failing_cases": int(stats["failing_cases"]), "failing_by_context": {k[8:]: v for k, v in stats.items() if k.startswith("failing:")},
                "indexed_differs_from_plain": int(stats["indexed_differs_from_plain"]),
+               "minimal_parentheses_differ": int(stats["minimal_parentheses_differ"]),
                "signatures": dict(per_sig), "exhaustive": False,
                "exhaustive_depth2": chk.tier == "thorough"}
 
@@ -155,7 +204,9 @@ def replay(chk, path):
     gen = T.Generated()
     T.run_gen(gen, "tables", Mode="opq", Seed=1, EmitNodes=False, workers=2, timeout=600)   # tables + truth tables only
     setup = T.setup_sql(gen)
-    ob = T.Observer(setup, len(gen.table))
+    contexts = dict(T.Observer.CONTEXTS)
+    contexts["where/minimal-parens"] = contexts["where"]
+    ob = T.Observer(setup, len(gen.table), contexts=contexts, renderers={"where/minimal-parens": T.render_min})
     tree, ctx = r["tree"], r["context"]
     ob.ensure([(ctx, tree)])
     o = ob.get(ctx, tree)
